@@ -331,6 +331,17 @@ def r12_3(chk, uc):
             if a and call_name(a) == "arccos":
                 vd = find_atoms(a[2][0], lambda t: t[0] == "call" and call_name(t) in ("numpy.vdot", "numpy.dot", "numpy.inner"))
                 vd = vd or [("call", None, m[1]) for m in find_atoms(a[2][0], lambda t: t[0] == "matmul" and len(t[1]) == 2)]
+                # the cosine handed to arccos is the dot product itself, at most clamped to [-1, 1] against rounding (another interval changes angles)
+                ca_ = a[2][0].as_atom()
+                clamp = None
+                if ca_ and ca_[0] == "call" and call_name(ca_) in ("numpy.clip", "clip") and len(ca_[2]) == 3:
+                    clamp = (ca_[2][1].const_value(), ca_[2][2].const_value())
+                    inner_ = ca_[2][0].as_atom()
+                else:
+                    inner_ = ca_
+                plain_dot = bool(inner_ and (inner_[0] == "matmul" or (inner_[0] == "call" and call_name(inner_) in ("numpy.vdot", "numpy.dot", "numpy.inner"))))
+                chk.ob("R12.3", UC, q, f"the cosine of {nm} is the dot product of the two unit vectors, clamped to [-1, 1] at most", plain_dot and
+                       clamp in (None, (-1, 1)), fingerprint=f"cosine:{nm}", expected="arccos(clip(u . v, -1, 1))", found=str(a[2][0])[:120])
                 if vd:
                     got = {axis_of(vd[0][2][0]), axis_of(vd[0][2][1])}
                     ok = got == set(want_pairs[k])
